@@ -54,15 +54,15 @@ func (c e2Cfg) String() string {
 	return fmt.Sprintf("active=%v threshold=%d suppression=%v interval=%v T6=%v", c.Active, c.Threshold, c.Suppress, c.interval(), c.t6())
 }
 
-// e2Case: Script is a string over {A,I,S,L,B,D,W,R,F,K}, one letter per round.
+// e2Case: Script is a string over {A,I,S,L,B,D,P,W,R,F,K}, one letter per round.
 type e2Case struct {
 	Cfg    e2Cfg  `json:"cfg"`
 	Script string `json:"script"`
 }
 
 const (
-	alphabet     = "AISLBDWRFK" // full alphabet, simplest first
-	coreAlphabet = "AIBDWRFK"   // without the slow / late answers
+	alphabet     = "AISLBDPWRFK" // full alphabet, simplest first
+	coreAlphabet = "AIBDPWRFK"   // without the slow / late answers
 )
 
 // ---- reference timeline ----
@@ -93,6 +93,7 @@ type timeline struct {
 	Suppressed int
 	LibData    []time.Duration // times the library writes an application data frame
 	Rejects    []time.Duration // times the library answers a late Linktest.rsp with Reject.req (E37: no open transaction)
+	LtAnswers  []time.Duration // times the library answers the peer's own Linktest.req (action P)
 }
 
 // simulate computes the reference timeline of script after Selected was reached at tSel.
@@ -150,8 +151,11 @@ func simulate(cfg e2Cfg, script string, tSel time.Duration, tail bool) timeline 
 					tl.Suppressed++
 					fire = f + ltInterval
 					tl.End = f + delta
-					if a == 'D' {
-						tl.Steps = append(tl.Steps, planStep{At: f + midT6, Kind: 'd'})
+					if a == 'D' || a == 'P' {
+						tl.Steps = append(tl.Steps, planStep{At: f + midT6, Kind: map[byte]byte{'D': 'd', 'P': 'p'}[a]})
+						if a == 'P' {
+							tl.LtAnswers = append(tl.LtAnswers, f+midT6)
+						}
 						lastAct, lastRecv = f+midT6, f+midT6
 						tl.End = f + midT6
 					}
@@ -175,8 +179,14 @@ func simulate(cfg e2Cfg, script string, tSel time.Duration, tail bool) timeline 
 				tl.End = at
 				return true
 			}
-			if a == 'D' {
-				tl.Steps = append(tl.Steps, planStep{At: P + midT6, Kind: 'd'})
+			if a == 'D' || a == 'P' {
+				// P: the peer's sign of life is its OWN Linktest.req, which the library answers at once — a
+				// frame the library writes after the peer's frame and before T6 expires. What the library
+				// itself sent last says nothing about the peer: the timeout is credited exactly as for D
+				tl.Steps = append(tl.Steps, planStep{At: P + midT6, Kind: map[byte]byte{'D': 'd', 'P': 'p'}[a]})
+				if a == 'P' {
+					tl.LtAnswers = append(tl.LtAnswers, P+midT6)
+				}
 				lastAct, lastRecv = P+midT6, P+midT6
 			}
 			E := P + ltT6
@@ -359,6 +369,10 @@ func runE2(t *testing.T, ec e2Case) (obs observation, fails []failure, harness s
 				peerSys++
 				toLib = append(toLib, w.Now())
 				w.Send(peer.Data(libSession, 1, 1, false, peerSys, []byte{0xA5, 0x01, 0x07}))
+			case 'p':
+				peerSys++
+				toLib = append(toLib, w.Now())
+				w.Send(peer.Ctrl(peer.SLinktestReq, 0xFFFF, 0, 0, peerSys))
 			case 'w':
 				wsends = append(wsends, &wsend{started: w.Now()})
 				calls = append(calls, w.Go(func() {
@@ -451,6 +465,15 @@ func runE2(t *testing.T, ec e2Case) (obs observation, fails []failure, harness s
 				if !expected || wf.F.B2 != peer.SLinktestRsp || wf.F.B3 != 3 {
 					bad("e2:unexpected-frame", "%s: the library wrote %s at %v (Reject.req(Linktest.rsp, reason 3) is expected only for the late answers at %s)", where, wf.F.Key(), wf.At, fmtTimes(tl.Rejects))
 				}
+			case peer.SLinktestRsp:
+				expected := false
+				for _, r := range tl.LtAnswers {
+					expected = expected || r == wf.At
+				}
+				if !expected {
+					bad("e2:unexpected-frame", "%s: the library wrote %s at %v (a Linktest.rsp is expected only as the answer to the peer's own Linktest.req at %s)", where, wf.F.Key(), wf.At, fmtTimes(tl.LtAnswers))
+				}
+				continue // echoes the PEER's system bytes: not one of the library's own
 			default:
 				bad("e2:unexpected-frame", "%s: the library wrote %s at %v", where, wf.F.Key(), wf.At)
 			}
